@@ -1,2 +1,53 @@
-From Flaxm Require Import Lib.Harness Model.Linen.
-Example C01_placeholder : True. Proof. exact I. Qed.
+(* C01 -- Linen init/apply are pure functions with an explicit mutability contract. *)
+From Flaxm Require Import Lib.Harness Model.Filters Model.Linen Proofs.Linen.
+
+(* apply is a function of (program, mutable, variables, rngs, arguments): it is a Gallina function; the repeated-
+   call oracle of the correspondence check is its implementation-side counterpart *)
+Theorem C01_apply_is_function : forall ev top vars x r1 r2, apply_m ev top vars x = r1 -> apply_m ev top vars x = r2 -> r1 = r2.
+Proof. intros; congruence. Qed.
+
+(* Only the collections selected by `mutable` can change: every other collection of the final tree is exactly the
+   one passed in; no collection disappears; what apply returns are exactly the final collections matching `mutable`
+   (so every existing collection matching it, touched or not). For every module program and every filter. *)
+Theorem C01_mutable_contract : forall ev top vars x y s, apply_m ev top vars x = Ok (y, s) ->
+  (forall c, in_filter (e_mutable ev) c = false -> cassoc c (s_vars s) = cassoc c vars) /\
+  (forall c, cassoc c vars <> None -> cassoc c (s_vars s) <> None) /\
+  (forall c n, In (c, n) (returned ev (s_vars s)) <-> In (c, n) (s_vars s) /\ in_filter (e_mutable ev) c = true).
+Proof. exact mutable_contract. Qed.
+Print Assumptions C01_mutable_contract.
+
+(* the same for any sub-computation (any module call at any path, any fuel) *)
+Theorem C01_frame : forall ev fuel cls p v s y s', run_call fuel ev cls p v s = Ok (y, s') -> frame_rel ev s s'.
+Proof. exact run_call_frame. Qed.
+Print Assumptions C01_frame.
+
+(* a write to any other collection raises instead of taking effect *)
+Theorem C01_immutable_write_raises : forall ev call p input fr s col nm e v,
+  eval (f_locals fr) input e = Some v -> in_filter (e_mutable ev) col = false ->
+  step ev call p input fr s (SVarSet col nm e) = Err EModifyScope.
+Proof. exact immutable_write_raises. Qed.
+Print Assumptions C01_immutable_write_raises.
+Theorem C01_immutable_param_init_raises : forall ev call p input fr s x nm n c,
+  name_reserved (f_resv fr) nm (Some (e_params ev)) = false -> has_var (s_vars s) (e_params ev) p nm = false ->
+  in_filter (e_mutable ev) (e_params ev) = false ->
+  step ev call p input fr s (SParam x nm n c) = Err ECollectionNotFound \/ step ev call p input fr s (SParam x nm n c) = Err EParamNotFound.
+Proof. exact immutable_param_init_raises. Qed.
+
+(* sow into a collection that is not mutable stores nothing and changes nothing *)
+Theorem C01_immutable_sow_is_noop : forall ev call p input fr s col nm e v,
+  eval (f_locals fr) input e = Some v -> in_filter (e_mutable ev) col = false ->
+  step ev call p input fr s (SSow col nm e) = Ok (fr, s).
+Proof. exact immutable_sow_is_noop. Qed.
+
+(* non-vacuity: a nested program that updates batch_stats; with mutable='batch_stats' the params are untouched *)
+Example C01_example :
+  let child : mclass := ([SParam 1 (NExp 0) 2 3; SVar 2 1 (NExp 3) 2 0; SVarSet 1 (NExp 3) (EAdd (ELocal 2) EInput)], EMul (ELocal 1) EInput) in
+  let top : mclass := ([SChild 1 7 None; SCall 1 1 EInput; SCall 2 1 (ELocal 1)], ELocal 2) in
+  let ev m := mkEnv m [0%N] [(7%N, child); (0%N, top)] 0 4 in
+  match apply_m (ev (FDeny (FName 3%N))) 0 [] [1; 2]%Z with
+  | Ok (y, s) => y = [9; 18]%Z /\
+      match apply_m (ev (FName 1%N)) 0 (s_vars s) [1; 2]%Z with
+      | Ok (y', s') => y' = [9; 18]%Z /\ cassoc 0%N (s_vars s') = cassoc 0%N (s_vars s) /\ cassoc 1%N (s_vars s') <> cassoc 1%N (s_vars s)
+      | Err _ => False end
+  | Err _ => False end.
+Proof. vm_compute. repeat split; try reflexivity. discriminate. Qed.
